@@ -215,7 +215,7 @@ func (ctx *cmdContext) infoUnlocked(cs *clientState) string {
 	if cs.client.IsCloseRequested() {
 		flags.WriteRune('c')
 	}
-	if isAbortedExecUnlocked(cs) {
+	if isAbortedExecUnlocked(cs, ctx.dsc.ds) {
 		flags.WriteRune('d')
 	}
 	if cs.isMultiInProgress() {
